@@ -14,7 +14,7 @@ from harness.framework import cnatlist, cnatlist2, pmap
 LEVEL = "proof"
 RULE = ("calls store/to_zarr with sources {in-memory, computed, rechunked, fused chain}, targets {path, path+group path, existing Zarr "
         "array of equal / other chunking, sharded array}, regions {none, full, chunk-aligned, end-of-axis, misaligned, wrong shape}, "
-        "eager and lazy, lists of pairs incl. one source to several targets, on the local executors; targets are pre-filled with a "
+        "eager and lazy, lists of pairs incl. one source to several targets, after the same lazy source was computed or stored elsewhere before (histories), on the local executors; targets are pre-filled with a "
         "sentinel and read back with plain zarr. K: for region stores the real acceptance decision, enumerated output blocks, key "
         "function and num_tasks vs Model.StoreRegion; for stores into existing arrays the chunk size of the writing tasks vs the model. "
         "non-trivial = accepted call with >=2 tasks or a rejected one; distinct = distinct call description")
@@ -185,7 +185,21 @@ def whole_work(part, n):
             sources = [src] * npairs
             lazy_mode = part.rng.random() < 0.4
             exname = part.rng.choice(["single-threaded", "threads", "threads"])
-            desc = {"shape": shape, "source_chunks": schunks, "source_kind": kind, "targets": kinds, "lazy": lazy_mode, "executor": exname}
+            # the same lazy array may have been computed (or stored elsewhere) before this store: a history, not only a call
+            before_store = part.rng.choice(["nothing", "nothing", "computed-before", "stored-elsewhere-before"]) if kind != "memory" else "nothing"
+            desc = {"shape": shape, "source_chunks": schunks, "source_kind": kind, "targets": kinds, "lazy": lazy_mode, "executor": exname,
+                    "before_store": before_store}
+            part.count("history:" + before_store)
+            try:
+                with warnings.catch_warnings():
+                    warnings.simplefilter("ignore")
+                    if before_store == "computed-before":
+                        if not np.array_equal(np.asarray(src.compute(executor=create_executor(exname))), data):
+                            part.fail("target-wrong-contents", "the source itself computes to a wrong value before the store", desc)
+                    elif before_store == "stored-elsewhere-before":
+                        cubed.to_zarr(src, os.path.join(tmp, "elsewhere.zarr"), executor=create_executor(exname))
+            except (ValueError, NotImplementedError):
+                continue
             part.evaluations += 1
             try:
                 with warnings.catch_warnings():
@@ -220,6 +234,12 @@ def whole_work(part, n):
                     continue
                 if not np.array_equal(got, data):
                     part.fail("target-wrong-contents", f"target {i} ({kinds[i]}) does not hold the source values after the store", desc)
+            if before_store == "stored-elsewhere-before":
+                try:
+                    if not np.array_equal(zarr.open_array(os.path.join(tmp, "elsewhere.zarr"))[...], data):
+                        part.fail("earlier-target-changed", "a target filled by an earlier store no longer holds the source values", desc)
+                except Exception as e:
+                    part.fail("earlier-target-changed", f"the target of the earlier store cannot be read back: {type(e).__name__}", desc)
         finally:
             shutil.rmtree(tmp, ignore_errors=True)
 
